@@ -510,6 +510,7 @@ func runC09(p *Prog, r *Report) {
 	c09R3(p, r)
 	c09R4(p, r)
 	c09R5(p, r)
+	c15R6(p, r, "C09.R6")
 }
 
 // sortObl is a sort call that canonicalises a sequence.
@@ -1172,6 +1173,19 @@ func pkgLevelStateRule(p *Prog, r *Report, id string) {
 					switch b.Name() {
 					case "delete", "clear", "copy":
 						mark(fi, x.Args[0], x, b.Name()+" on "+exprString(x.Args[0]))
+					}
+				}
+				// a pointer-receiver method called on an addressable global (sync.Map.Store,
+				// sync.Once.Do, bytes.Buffer.Write …) implicitly takes its address
+				if sel, ok := ast.Unparen(x.Fun).(*ast.SelectorExpr); ok {
+					if s := fi.Pkg.TypesInfo.Selections[sel]; s != nil && s.Kind() == types.MethodVal {
+						if sig, ok := s.Obj().Type().(*types.Signature); ok && sig.Recv() != nil {
+							_, ptrRecv := sig.Recv().Type().(*types.Pointer)
+							_, xIsPtr := fi.Pkg.TypesInfo.TypeOf(sel.X).Underlying().(*types.Pointer)
+							if ptrRecv && !xIsPtr {
+								mark(fi, sel.X, x, "pointer-receiver method "+s.Obj().Name()+" called on "+exprString(sel.X))
+							}
+						}
 					}
 				}
 			}
